@@ -224,6 +224,15 @@ pub fn run(a: &Args) {
     }
     {
         use exmex::{parse_val, Express};
+        for (text, want) in [("fact(21)", Some(51090942171709440000i128)), ("fact(25)", Some(15511210043330985984000000)), ("fact(33)", Some(8683317618811886495518194401280000000)), ("fact(34)", None), ("9223372036854775807 + 1", Some(9223372036854775808)), ("2 ^ 100", Some(1i128 << 100)), ("2 ^ 127", None), ("18446744073709551616 * 18446744073709551616", None)] {
+            let got = std::panic::catch_unwind(|| parse_val::<i128, f64>(text).and_then(|e| e.eval(&[])));
+            let ok = match (&got, want) { (Ok(Ok(Val::Int(i))), Some(w)) => *i == w, (Ok(Ok(Val::Error(_))), None) | (Ok(Err(_)), None) => true, _ => false };
+            other_apps += 1;
+            if !ok { cases.push(C { g: "VU [] VNone None".to_string(), note: format!("[Val<i128,f64>] {text} = {:?}", got.as_ref().map(|r| r.as_ref().map(|v| format!("{v:?}")).map_err(|e| e.to_string())).unwrap_or(Ok("PANIC".into()))), family: "other-instantiations", ok: Some(false), onote: format!("expected {want:?} (None = an error value)"), answer: "wrong".into() }); }
+        }
+    }
+    {
+        use exmex::{parse_val, Express};
         for (text, want) in [("1 if 2147483647 > 2147483646 else 0", 1i32), ("1 if 16777216 < 16777217 else 0", 1), ("1 if 16777217 <= 16777216 else 0", 0), ("1 if 16777216 == 16777217 else 0", 0), ("16777217 max 16777216", 16777217), ("16777217 - 16777216", 1)] {
             let got = std::panic::catch_unwind(|| parse_val::<i32, f32>(text).and_then(|e| e.eval(&[])));
             let ok = matches!(&got, Ok(Ok(Val::Int(i))) if *i == want);
@@ -417,6 +426,32 @@ pub fn run_c20(a: &Args) {
                 }
                 bad }) }).collect();
             for h in handles { match h.join() { Ok(b) => { histories += 1; bad.extend(b); } Err(_) => bad.push(format!("concurrent parses with {nt} threads: a thread panicked")) } }
+        }
+    }
+    // already evaluated deep expressions change places (the same storage then holds another expression with the same number of
+    // operators): evaluation depends on the expression alone, on this thread and on a long-lived worker thread
+    {
+        let mk = |t: &str| DeepEx::<f64>::parse(Box::leak(t.to_string().into_boxed_str())).unwrap();
+        let pairs = [("x*y+z", "x+y*z"), ("x-y/z+x", "x/y-z*x"), ("x^y*z", "x*y^z")];
+        for (ta, tbx) in pairs {
+            let fresh = |t: &str| mk(t).eval(&[2.0, 3.0, 4.0]).unwrap().to_bits();
+            let mut v = vec![mk(ta), mk(tbx)];
+            let before = (v[0].eval(&[2.0, 3.0, 4.0]).unwrap().to_bits(), v[1].eval(&[2.0, 3.0, 4.0]).unwrap().to_bits());
+            v.swap(0, 1);
+            let after = (v[0].eval(&[2.0, 3.0, 4.0]).unwrap().to_bits(), v[1].eval(&[2.0, 3.0, 4.0]).unwrap().to_bits());
+            histories += 1;
+            if before != (fresh(ta), fresh(tbx)) || after != (fresh(tbx), fresh(ta)) { bad.push(format!("deep expressions {ta:?} and {tbx:?} evaluated, swapped in place and evaluated again: {:?} then {:?}", before, after)); }
+            // a worker thread that lives across the replacement of the expression in a shared slot
+            let slot = Arc::new(std::sync::Mutex::new(mk(ta)));
+            let (txq, rxq) = std::sync::mpsc::channel::<()>(); let (txr, rxr) = std::sync::mpsc::channel::<u64>();
+            let s2 = slot.clone();
+            let worker = std::thread::spawn(move || { while rxq.recv().is_ok() { let r = s2.lock().unwrap().eval(&[2.0, 3.0, 4.0]).unwrap().to_bits(); if txr.send(r).is_err() { break } } });
+            txq.send(()).unwrap(); let r1 = rxr.recv().unwrap();
+            { let mut g = slot.lock().unwrap(); let repl = mk(tbx); *g = repl; }
+            txq.send(()).unwrap(); let r2 = rxr.recv().unwrap();
+            drop(txq); let _ = worker.join();
+            histories += 1;
+            if r1 != fresh(ta) || r2 != fresh(tbx) { bad.push(format!("a worker thread evaluated the slot holding {ta:?}, then {tbx:?} in its place: {r1:x} then {r2:x}, a sequential run gives {:x} then {:x}", fresh(ta), fresh(tbx))); }
         }
     }
     // concurrent parses of value-typed texts with array literals of different lengths (beyond and within the inline capacity)
